@@ -227,8 +227,8 @@ func runStore(a Args) *Result {
 		var offs []int64
 		if nOff == 0 {
 			step := 1
-			if L > 3000 {
-				step = L / 3000
+			if L > 600 {
+				step = L / 600
 			}
 			for n := 0; n <= L+1; n += step {
 				offs = append(offs, int64(n))
